@@ -15,6 +15,7 @@ CHECKS = {
         "specification's answers; 64-bit repetition counts are reached by call records judged by TLC (BLSRecords.tla) "
         "and by the lemma table carried to huge k.",
    note="Bounded: leaves within 0..4 (quick) / 0..6 (thorough), two stacked operators plus fixed side operands, divisors 1..8 "
+        "(operand sequences arrive as list / tuple / one-shot iterable, fixed-length leaves also as the plain integer or set they stand for) " 
         "exhaustively; larger divisors (<=64) and counts (<=2**63) are sampled and rest on the lemmas' definitional step. "
         "Trusted: TLC's evaluation of TLA+ set operators, Python integers.",
    technique="TLA+ spec + TLC exhaustive enumeration; spec states replayed into the real API; call records validated by TLC; arithmetic lemmas for all integers by Apalache",
@@ -55,6 +56,7 @@ CHECKS = {
         "bit_length_set, alignment_requirement, extent, length/tag/header widths are compared; capacities and variant "
         "counts are enumerated by bit length 1..64 at both ends of each interval.",
    note="Sessions (Layout_sessions.cfg): every pair of element types whose sets differ but agree in min / max / residues mod 32, "
+        "(boundary unions are built through the public constructor from a list / tuple / generator in turn) " 
         "wrapped seven ways, both read in one process in either order (caches keyed too coarsely). "
         "Universe: all primitive widths 1..64 in flat shapes (capacities 1-3, six sibling field types incl. sub-byte, composite "
         "and variable-length), small widths nested 2 (quick) / 3 (thorough) levels, extents max/+8/+24. Union tag boundaries "
@@ -68,6 +70,7 @@ CHECKS = {
         "iterate_fields_with_offsets / enumerate_elements_with_offsets (queried repeatedly on one object) and the printed "
         "intrinsics `_offset_` (every position), `T._bit_length_`, `T._extent_` are compared with the specification.",
    note="Same universe as C02; base sets {0},{8},{1},{0,4,8},{3,16},{7,9},{0,64},{0,32,64}. That offsets are the positions the "
+        "(the many-attribute types are built from a list / tuple / iterator in turn) " 
         "encoder really uses is checked in Wire.tla (C06).",
    technique="TLA+ offset rules checked by TLC; every state materialised, iterators and @print intrinsics compared",
    design="4 C08"),
@@ -152,6 +155,7 @@ CHECKS = {
         "replacement texts; projections must be identical; the recorded text loads of every run must lie inside the closure and "
         "the recorded scope of the cross-definition checks must be direct / direct + transitive.",
    note="Replacements: garbage, failing assertion, missing @sealed, @print, service instead of message, undefined reference. "
+        "Also an empty file and a file of line breaks only. " 
         "Malformed file names in lookup directories are outside (inspected at listing time).",
    technique="TLA+ closure invariants checked by TLC; paired runs of every configuration against the implementation",
    design="4 C19"),
@@ -161,6 +165,7 @@ CHECKS = {
         "ports (none, 0, 5) x sealing x size classes, request and response separately. Every set is materialised in one "
         "namespace and read; accepted vs rejected-with-InvalidDefinitionError is compared with the declarative rules.",
    note="Pairs exhaustively (69k), every chain of three (thorough: four) minor versions under one major over kind x port x "
+        "(half of the sets with several minors also renumbered order-preservingly to 0, 2, 9, 10, 11; half of the sets of two names also split over two root namespaces and read through read_files) " 
         "sealing x size (29k / 45k), mixed triples sampled in the thorough tier. Violations located in lookup namespaces are covered "
         "by four fixed scope cases.",
    technique="TLA+ declarative rules vs pairwise loops checked by TLC; every set materialised and read",
@@ -199,6 +204,7 @@ CHECKS = {
         "capacities, ranges, counts); Statements.tla covers directive placement exhaustively. Every abstract definition is "
         "materialised and read; accepted iff Valid, every rejection an InvalidDefinitionError.",
    note="Capacities and extents that are not natural numbers (5/2, negative, string, boolean, set) and names with non-ASCII "
+        "(also: a definition with an unregulated port-ID reached first as a dependency - field / array / constant reference, referrer sorting before or after, both entry points -, and the rules the model classes enforce themselves under five argument forms of the public constructors) " 
         "letters / digits / marks, a leading digit or a dash (from the file system) are part of the pools. "
         "The legality of name tokens is a table (63 tokens) transcribed from the Specification; relative extents use the "
         "longest representation of the sealed variant as read from the implementation (C02 decides extents).",
@@ -210,6 +216,7 @@ CHECKS = {
         "finite float +- 1/3, every string of up to two characters over seven character classes, booleans, sets); the exponent arithmetic is validated against plain integers up to 24 "
         "bits. Each pair is rendered with an exact expression and read; accepted iff Compliant and the stored value exact.",
    note="A fixed list of literal forms (negative exponents, digit separators, bases) must be stored as the exact rational they denote. "
+        "It includes compliant values whose rational form has thousands of digits and results of fractional powers. " 
         "Cases meet in the worker processes in a seeded random order. Trusts C04 for the exactness of the boundary expressions.",
    technique="TLA+ compliance predicate on symbolic boundary values enumerated by TLC; every pair read by pydsdl",
    design="4 C12"),
@@ -247,6 +254,7 @@ CHECKS = {
         "the design (TraceSolver.tla), and the instruction count inside the bit length set package must not grow from 2**16 "
         "elements upward and stay below a fixed budget.",
    note="Known finding F15: a definition that READS `_offset_` behind a huge array is expanded numerically (the intrinsic is a set value). "
+        "The sweep includes capacities 3, 6, 12 (thorough: 5, 10, 24 too) besides the powers of two. " 
         "Wall time and memory are not decided (reported only); the decided statement is its operation-count form. The budget "
         "(4*10^7 instructions, ~7x the unchanged tree) and a 180 s terminator for work stuck in C-level iteration are the only "
         "thresholds.",
